@@ -2072,7 +2072,8 @@ class ProgramGen:
             return None
         f, pre = self.none_fn()
         em = lambda *a: self.emit_stat(list(a))
-        P = lambda *a: Call(Var("pcall"), *a)
+        # the library function is called DIRECTLY from Lua code (inside a protected Lua function)
+        P = lambda fn, *a: Call(Var("pcall"), Fn([], False, [Return(Call(fn, *a))]))
         none = Call(Var(f))
         one = lambda e: Call(Var(f), e)
         t = self.fresh("t")
@@ -2097,6 +2098,7 @@ class ProgramGen:
             ("assert", [P(Var("assert"), none), P(Var("assert"), one(Int(1)))]),
             ("error", [P(Var("error"), none), P(Var("error"), Tab(), none)]),
             ("pcall", [P(Var("pcall"), none), P(Var("pcall"), Var("pcall"), none)]),
+            ("via-pcall", [Call(Var("pcall"), Var("type"), none), Call(Var("pcall"), Var("rawequal"), one(Int(1))), Call(Var("pcall"), Fld(Var("string"), "rep"), Str("ab"), none)]),
             ("table.insert", [P(Fld(Var("table"), "insert"), Tab(), none)]),
             ("table.unpack", [P(Fld(Var("table"), "unpack"), Tab(FPos(Int(1)), FPos(Int(2))), none)]),
             ("table.concat", [P(Fld(Var("table"), "concat"), Tab(FPos(Str("a")), FPos(Str("b"))), none)]),
@@ -2108,8 +2110,9 @@ class ProgramGen:
         if calls is None:
             # the same through `...` of a vararg function called with 0, 1 or 2 values
             g = self.fresh("va")
-            body = [em(Str("va"), P(Var("type"), Dots())), em(P(Var("rawequal"), Dots())), em(P(Var("rawlen"), Dots())),
-                    em(P(Fld(Var("string"), "rep"), Str("x"), Dots()))]
+            PV = lambda fn, *a: Call(Var("pcall"), Fn([], True, [Return(Call(fn, *a))]), Dots())
+            body = [em(Str("va"), PV(Var("type"), Dots())), em(PV(Var("rawequal"), Dots())), em(PV(Var("rawlen"), Dots())),
+                    em(PV(Fld(Var("string"), "rep"), Str("x"), Dots()))]
             return [LocalFn(g, Fn([], True, body)), SCall(Call(Var(g))), SCall(Call(Var(g), Int(2))), SCall(Call(Var(g), Int(2), Str("s")))]
         return pre + [em(Str(name), c) for c in calls]
 
@@ -2377,13 +2380,13 @@ class ErrorGen(ProgramGen):
 
     VALUES = ["nil", "false", "true", "int", "flt", "str0", "str1", "str2", "strdef", "table", "function", "empty",
               "rt-arith", "rt-call", "rt-index", "rt-concat", "rt-compare", "rt-len", "rt-div0", "rt-mod0", "rt-setindex",
-              "rt-intrep", "rt-callfield", "rt-forstep", "assert-tab", "assert-int"]
+              "rt-intrep", "rt-callfield", "rt-forstep", "assert-tab", "assert-int", "str-nil-level"]
     SITES = ["direct", "nested", "deep", "for", "while", "repeat", "forin", "iterator", "meta-index", "meta-newindex", "meta-arith",
              "meta-call", "meta-eq", "meta-lt", "meta-concat", "meta-len", "meta-unm", "operand", "argument", "ctor", "methodarg",
              "concat", "cond", "key", "tailcall", "retparen", "vararg", "andor", "upvalue-fn", "rhs-multi",
-             "close-scope", "close-two", "close-in-loop", "co-resume-rethrow", "co-wrap"]
+             "close-scope", "close-two", "close-in-loop", "co-resume-rethrow", "co-wrap", "meta-index-number"]
     CATCHES = ["pcall", "pcall-args", "xpcall-id", "xpcall-wrap", "xpcall-none", "xpcall-multi", "rethrow", "pcall-pcall", "inner-caught",
-               "xpcall-in-pcall", "pcall-in-xpcall", "select-results", "pcall-method", "resume", "wrap-pcall", "resume-in-pcall"]
+               "xpcall-in-pcall", "pcall-in-xpcall", "select-results", "pcall-method", "resume", "wrap-pcall", "resume-in-pcall", "pcall-error-direct"]
 
     def __init__(self, rng, profile=None):
         super().__init__(rng, profile)
@@ -2406,6 +2409,7 @@ class ErrorGen(ProgramGen):
         if val == "str1": return [SCall(Call(Var("error"), Str(msg), Int(1)))]
         if val == "str2": return [SCall(Call(Var("error"), Str(msg), Int(2)))]
         if val == "strdef": return [SCall(Call(Var("error"), Str(msg)))]
+        if val == "str-nil-level": return [SCall(Call(Var("error"), Str(msg), Nil()))]
         if val in ("table", "function"): return [SCall(Call(Var("error"), Var(E), *([Int(r.choice([0, 1, 2]))] if r.chance(1, 2) else [])))]
         if val == "assert-tab": return [SCall(Call(Var("assert"), r.choice([FalseE(), Nil()]), Var(E)))]
         if val == "assert-int":
@@ -2451,6 +2455,10 @@ class ErrorGen(ProgramGen):
             it = Fn([], False, [Local([c], [Int(0)]), Return(Fn([], False, [Assign([Var(c)], [Bin("add", Var(c), Int(1))]),
                                                                              If([(Bin("eq", Var(c), Int(2)), rs)], None), Return(Var(c))]))])
             return [ForIn([x], [Call(Par(it))], [em(Str("it"), Var(x))])]
+        if site == "meta-index-number":
+            # an __index metavalue that is neither a function nor a table is indexed itself
+            return [Local([t], [Call(Var("setmetatable"), Tab(), Tab(FNamed("__index", r.choice([Int(5), TrueE(), Flt(1.5)]))))]),
+                    Local([self.fresh("pad")], [Int(1)]), Local([x], [Fld(Var(t), "k")])]
         if site.startswith("meta-"):
             ev = {"meta-index": "__index", "meta-newindex": "__newindex", "meta-arith": r.choice(["__add", "__sub", "__mul", "__div", "__mod", "__idiv", "__band", "__shl"]),
                   "meta-call": "__call", "meta-eq": "__eq", "meta-lt": r.choice(["__lt", "__le"]), "meta-concat": "__concat",
@@ -2472,7 +2480,14 @@ class ErrorGen(ProgramGen):
                 if r.chance(1, 2):
                     a, b = b, a
                 use = Local([x], [Bin(opmap[ev], a, b)])
-            return obj + [use]
+            # call-free statements between the last call and the operation: the position that
+            # error(msg, 2) reports from inside the handler must be the operation's line
+            pad = [Local([self.fresh("pad")], [Int(r.below(9))]) for _ in range(r.below(3))]
+            return obj + pad + [use]
+        if site == "meta-index-number":
+            # an __index metavalue that is neither a function nor a table is indexed itself
+            return [Local([t], [Call(Var("setmetatable"), Tab(), Tab(FNamed("__index", r.choice([Int(5), TrueE(), Flt(1.5)]))))]),
+                    Local([self.fresh("pad")], [Int(1)]), Local([x], [Fld(Var(t), "k")])]
         f = LocalFn(g, Fn([], False, [em(Str("f"))] + rs + [Return(Int(1))]))
         if site == "operand": return [f, Local([x], [Bin(r.choice(["add", "mul", "lt", "concat"]), Int(1), Call(Var(g)))])]
         if site == "argument": return [f, em(Int(1), Call(Var(g)), Int(3))]
@@ -2565,7 +2580,14 @@ class ErrorGen(ProgramGen):
         hnone = Fn(["m"], False, [em(Str("handler"))])
         hmulti = Fn(["m"], True, [em(Str("handler"), Call(Var("select"), Str("#"), Dots())), Return(Var("m"), Int(1), Int(2))])
         wrapped = False
-        if catch == "pcall":
+        if catch == "pcall-error-direct" and val in ("str0", "table", "function", "int", "nil"):
+            # `error` called directly by pcall: level 1 is a Go function, there is no position to add
+            self.feat("catch:pcall(error, v)")
+            m0 = Str(r.choice([b"direct", b"msg"]))
+            arg = {"str0": [m0, Int(0)], "table": [Var(E)], "function": [Var(E)],
+                   "int": [Int(7)], "nil": [Nil()]}[val]
+            out.append(Local([ok, e], [Call(Var("pcall"), Var("error"), *arg)]))
+        elif catch == "pcall" or catch == "pcall-error-direct":
             out.append(Local([ok, e], [Call(Var("pcall"), fn)]))
         elif catch == "pcall-args":
             out.append(Local([ok, e], [Call(Var("pcall"), fn, Int(1), Str("two"), Int(3))]))
